@@ -26,6 +26,18 @@ def exception_edges(run, fn):
     return out
 
 
+def check_parser_no_add(run, F):
+    """The parser appends groups itself; it never files attributes through add(), which targets the first group of a kind."""
+    from ..facts import callee as _callee, walk as _walk
+    for _path, _body in F.hir.items():
+        if _path.startswith("ipp::parser::") and "::tests::" not in _path:
+            for _n in _walk(_body["body"]):
+                if (_callee(_n) or "") in ("ipp::attribute::IppAttributes::add",):
+                    run.ob("R-ORDERED", "the parser files attributes into the group it is reading", False,
+                           "%s calls IppAttributes::add: add targets the *first* group of a kind, so the attributes of a repeated group (one job group per job) are merged into the first one" % _path,
+                           site(_body, _n), key="R-ORDERED|%s|parser-calls-add" % _path)
+
+
 def marker_closure(F):
     """Message types and every crate type that (transitively) owns one: dropping a `ParserState` drops the values inside it."""
     marks = set(MARKERS)
@@ -189,6 +201,13 @@ def check(run, views, tier):
         # parser refuse (abort on) a well-formed message. R-GUARD's text-slice clause over the parse cone (which contains Display).
         rr.r_trace_display(run, F)
         rr.r_token(run, F)
+        check_parser_no_add(run, F)
+        rr.r_readexact(run, F)
+        rr.r_stop_onlyexit(run, F)
+        rr.r_errwrap(run, F)
+        from ..engine import include as _inc
+        from . import c19 as _c19
+        _inc(run, _c19, {cfg: {"ipp": F}}, tier)
         # a decode error must be returned, not skipped (a swallowed error turns the rest of the attribute into something else)
         rr.r_propagate(run, F)
         n = cr.r_tagmap(run, F, T, check_registry=True)
